@@ -123,5 +123,8 @@ func (c *Cell[T]) touch(opc uint64) {
 	s.touch(&c.h.chain, opc)
 }
 
-func (c *Cell[T]) Get() T  { c.touch(1); return c.v }
+func (c *Cell[T]) Get() T { c.touch(1); return c.v }
+
+// Peek reads without recording an event: for use inside Block conditions only.
+func (c *Cell[T]) Peek() T { return c.v }
 func (c *Cell[T]) Set(v T) { c.touch(2); c.v = v }
